@@ -54,7 +54,7 @@ var c04AllPairs = func() []c04Pair {
 func c04Counts(tier string) (enum1, enum2, enum3, random int) {
 	n := len(c04AllPairs)
 	if tier == "thorough" {
-		return n, n * n, n * n * n, 200000 + len(rtSizeCases(tier))
+		return n, n * n, n * n * n, 600000 + len(rtSizeCases(tier))
 	}
 	return n, n * n, 0, 8000 + len(rtSizeCases(tier))
 }
